@@ -30,7 +30,9 @@ RULE = ("one run = ~20 frames drawn from {plain->keyed, plain->unkeyed, secured-
         "sequence of frame classes")
 REAL = ["xknx.cemi.CEMIHandler", "xknx.secure.data_secure.DataSecure", "xknx.core.TelegramQueue (callbacks, key-issue callbacks)",
         "xknx.devices.Switch", "xknx.telegram.apci.APCI.from_knx", "xknx.cemi.CEMIFrame codec"]
-STUB = ["KNXIPInterface stubs + bus", "reference device (sim.crypto) encrypting arbitrary inner content", "loop (SimLoop)"]
+STUB = ["KNXIPInterface stubs + bus (hand-offs may fail after the frame went out)",
+        "reference device (sim.crypto) encrypting arbitrary inner content and opening every outgoing secured frame as a peer "
+        "with a replay table", "loop (SimLoop)"]
 ASSUMPTIONS = ["inner APDU classes sampled from the APCI families of xknx/telegram/apci.py (short, truncated, over-long, unknown)"]
 
 APCI_HEADS = [0x0000, 0x0040, 0x0080, 0x00C0, 0x0100, 0x0140, 0x0180, 0x01C0, 0x01C8, 0x01C9, 0x01CA, 0x01CC, 0x01CD, 0x01CE,
@@ -62,6 +64,10 @@ def gen(seed: int, tier: str) -> dict[str, Any]:
             # address whose raw value equals the keyed / unkeyed group address
             op["dst"] = rng.choice(["raw=keyed", "raw=keyed", "raw=unkeyed", "other"])
             op["tpci"] = rng.choice(["connect", "disconnect", "individual"])
+        if k in ("out_keyed", "out_unkeyed", "out_setter") and rng.random() < 0.25:
+            # the hand-off to the interface fails although the frame was transmitted (e.g. both tunnelling acknowledgements
+            # lost): the frame may have reached the bus, a peer may have accepted it
+            op["fail"] = "comm_error_sent"
         if k == "malformed_inner":
             form = rng.choice(["empty", "one", "head_only", "head+1", "head+n", "random"])
             op["form"] = form
@@ -147,8 +153,18 @@ def run(plan: dict[str, Any]) -> dict[str, Any]:
             elif D.parse_secure(raw) is None:
                 R.probes["outgoing_point_to_point_plain"] += 1
         tx.stub.on_send = on_send
+        fail_next: list[str] = []
+
+        def pick(raw, i):
+            if fail_next:
+                R.extra_faults["handoff_failed_after_transmission"] += 1
+                return {"lat": 0.002, "out": fail_next.pop()}
+            return None
+        tx.stub.pick = pick
         for op in plan["ops"]:
             k = op["op"]
+            if op.get("fail"):
+                fail_next.append(op["fail"])
             apdu = bytes((0x00, 0x81))
             d0, i0, e0 = len(rx.delivered), len(rx.key_issues), len(R.net.protocol_escapes)
             c0 = len(dev_calls)
@@ -253,6 +269,22 @@ def run(plan: dict[str, Any]) -> dict[str, Any]:
             R.violate("C18.outgoing-secured", "plain-frame-sent-to-secured-address", raw.hex())
         if dst == GU and ps is not None:
             R.violate("C18.outgoing-secured", "secured-frame-sent-to-unkeyed-address", raw.hex())
+    # ... and secured means: a peer holding the key and the sender's last sequence number accepts each of them (the MAC
+    # verifies over exactly this frame, the sequence number is above every one this sender used before)
+    peer_last = -1
+    for (dst, raw) in out_frames:
+        ps = D.parse_secure(raw)
+        if dst != GK or ps is None:
+            continue
+        plain = C.ds_open(key, ps["asdu"], ps["scf"], ps["src"], ps["dst"], True, 0, ps["tpci_octet"])
+        if plain is None:
+            R.violate("C18.outgoing-secured", "outgoing-secured-frame-does-not-verify", raw.hex())
+        elif ps["seq"] <= peer_last:
+            R.violate("C18.outgoing-secured", "outgoing-frame-rejected-by-peer-as-replay",
+                      f"sequence number {ps['seq']} after {peer_last}: a peer that saw the earlier frame discards this one "
+                      f"(and the cipher stream of that number is used twice)")
+        peer_last = max(peer_last, ps["seq"])
+        R.probes["outgoing_secured_frames_opened_by_reference"] += 1
     n_out_k = sum(1 for o in plan["ops"] if o["op"] in ("out_keyed", "out_setter"))
     if sum(1 for (dst, _) in out_frames if dst == GK) != n_out_k:
         R.violate("C18.outgoing-secured", "outgoing-frame-count", f"{n_out_k} telegrams queued to the keyed address, "
